@@ -12,6 +12,7 @@ CONSTANTS Comp = "multi"
   NBuf = 2
   Gaps <- G_6_11
   Strict = FALSE
+  Busy = FALSE
   D = 30
 INIT Init
 NEXT Next
